@@ -1,4 +1,4 @@
-_C11_FLOORS = {"set-through-add_option": 20000, 
+_C11_FLOORS = {"start:parsed-with-spare-octets-behind-the-fields": 1000, "set-through-add_option": 20000, 
     "distinct": 50000, "steps": 500000, "checks:layout": 500000, "checks:serialize": 500000, "checks:reparse": 400000, "checks:reparse-inner": 300000,
     "checks:getter-value": 3000000, "checks:getter-not-present": 2000000,
     "br:insert-new": 200000, "br:overwrite-in-place": 150000, "br:insert-before-others": 150000, "br:insert-at-end": 50000,
